@@ -129,9 +129,9 @@ var props = map[string]*propCfg{
 		Title:    "follow mode delivers every appended byte exactly once, in order",
 		Quick:    tierCfg{Runs: 6000, Chunk: 200, DetRuns: 48, ShrinkSec: 60},
 		Thorough: tierCfg{Runs: 500000, Chunk: 2500, DetRuns: 256, ShrinkSec: 240},
-		Rule: "one evaluation = one simulated run of followreader.New(path, reopen, poll) (real notify.go/poller.go on real scratch files through the fs seam, fsnotify stubbed, poll delay on the fake clock) read by a simulated reader with drawn buffer sizes and latencies, against a simulated writer executing a drawn history of 1-12 operations over {append 1-40 unique bytes (sometimes split in two writes), pause 1ms-3s, remove-after-drain, re-create(+append)} x {notify, poll} x {reopen} x {tail}; odd-indexed runs add short reads and read latencies on the followed file; whether a re-created file takes over the inode number of the removed one is drawn from the tape (virtual identity behind os.SameFile); the writer may arm an append that lands right after the reader's next stat/read/open call; pauses include multiples of the 250ms poll period; one run in four drives batchers.TailFilesToChan over 1-3 followed files with a draining consumer (line numbering, prefix of complete lines, time flush, channel close); " +
+		Rule: "one evaluation = one simulated run of followreader.New(path, reopen, poll) (real notify.go/poller.go on real scratch files through the fs seam, fsnotify stubbed, poll delay on the fake clock) read by a simulated reader with drawn buffer sizes and latencies, against a simulated writer executing a drawn history of 1-12 operations over {append 1-40 unique bytes (sometimes split in two writes), pause 1ms-3s, remove-after-drain, re-create(+append)} x {notify, poll} x {reopen} x {tail}; odd-indexed runs add short reads and read latencies on the followed file; whether a re-created file takes over the inode number of the removed one is drawn from the tape (virtual identity behind os.SameFile); the writer may arm an append that lands right after the reader's next stat/read/open call; pauses include multiples of the 250ms poll period; one run in four drives batchers.TailFilesToChan over 1-3 followed files with a draining consumer (line numbering, prefix of complete lines, time flush, channel close), and a third of those go through the command line instead: `rare filter -l -f|-F|--follow|--reopen [--poll] [--tail|-t] --batch b --workers w files...` in-process, every printed `<source> <line>: <text>` checked against the appended streams, exit status and summary when plain follow ends, no return while a file is still followed; " +
 			"distinct_nontrivial = distinct schedule hashes among runs with >= 1 appended byte and >= 2 goroutines runnable at >= 1 decision",
-		Real:  []string{"pkg/followreader (notify.go, poller.go)", "pkg/extractor/batchers (TailFilesToChan, time flush)", "pkg/readahead", "regular files of the kernel (append, unlink-while-open, re-create)"},
+		Real:  []string{"pkg/followreader (notify.go, poller.go)", "pkg/extractor/batchers (TailFilesToChan, time flush)", "pkg/readahead", "main.cliMain + cmd/filter.go + cmd/helpers/extractorBuilder.go (command-line follow leg)", "regular files of the kernel (append, unlink-while-open, re-create)"},
 		Stubs: []string{"github.com/fsnotify/fsnotify + inotify (stub: FIFO kernel queue, adjacent-identical coalescing, ignore-if-file-gone, unbuffered Events)", "goroutine scheduling (tape)", "clock (synctest fake clock)", "short reads / read latency (fs seam)", "file identity (os.SameFile): virtual inode numbers, reuse decided by the tape"},
 		Assume: []string{"the fsnotify stub is faithful to fsnotify v1.4.9 on inotify for create/write/remove on one watched directory: FIFO, no loss below queue overflow, coalescing of an event identical to the newest unread one, non-remove events dropped when the file is gone at processing time"},
 	},
